@@ -34,15 +34,10 @@ def get_module_info(inference_state, sys_path=None, full_name=None, **kwargs):
     """
     Returns Tuple[Union[NamespaceInfo, FileIO, None], Optional[bool]]
     """
-    if sys_path is not None:
-        sys.path, temp = sys_path, sys.path
     try:
-        return _find_module(full_name=full_name, **kwargs)
+        return _find_module(full_name=full_name, sys_path=sys_path, **kwargs)
     except ImportError:
         return None, None
-    finally:
-        if sys_path is not None:
-            sys.path = temp
 
 
 def get_builtin_module_names(inference_state):
@@ -123,7 +118,8 @@ def _iter_module_names(inference_state, paths):
                         yield modname
 
 
-def _find_module(string, path=None, full_name=None, is_global_search=True):
+def _find_module(string, path=None, full_name=None, is_global_search=True,
+                 sys_path=None):
     """
     Provides information about a module.
 
@@ -135,11 +131,17 @@ def _find_module(string, path=None, full_name=None, is_global_search=True):
     """
     spec = None
     loader = None
+    # The sys path of the project is passed to the path finder explicitly.
+    # Replacing `sys.path` of this process while all the finders run is not an
+    # option: finders that were added to `sys.meta_path` by the environment's
+    # packages (e.g. the distutils shim of setuptools) import modules
+    # themselves and would import - i.e. execute - files of the project.
+    search_path = sys_path if path is None else path
 
     # importlib remembers path entries for which no finder could be created
     # (e.g. a directory that did not exist yet) as None and never looks at
     # them again. This process is long-lived, so forget those.
-    for entry in (sys.path if path is None else path):
+    for entry in (sys.path if search_path is None else search_path):
         if sys.path_importer_cache.get(entry, False) is None:
             del sys.path_importer_cache[entry]
 
@@ -147,7 +149,7 @@ def _find_module(string, path=None, full_name=None, is_global_search=True):
         if is_global_search and finder != importlib.machinery.PathFinder:
             p = None
         else:
-            p = path
+            p = search_path
         try:
             find_spec = finder.find_spec
         except AttributeError:
@@ -172,16 +174,20 @@ def _find_module(string, path=None, full_name=None, is_global_search=True):
                 return implicit_ns_info, True
             break
 
-    return _find_module_py33(string, path, loader)
+    return _find_module_py33(string, path, loader, sys_path=sys_path)
 
 
-def _find_module_py33(string, path=None, loader=None, full_name=None, is_global_search=True):
+def _find_module_py33(string, path=None, loader=None, full_name=None, is_global_search=True,
+                      sys_path=None):
     if not loader:
-        spec = importlib.machinery.PathFinder.find_spec(string, path)
+        spec = importlib.machinery.PathFinder.find_spec(
+            string, sys_path if path is None else path)
         if spec is not None:
             loader = spec.loader
 
     if loader is None and path is None:  # Fallback to find builtins
+        if sys_path is not None:
+            sys.path, temp = sys_path, sys.path
         try:
             spec = importlib.util.find_spec(string)
             if spec is not None:
@@ -190,6 +196,9 @@ def _find_module_py33(string, path=None, loader=None, full_name=None, is_global_
             # See #491. Importlib might raise a ValueError, to avoid this, we
             # just raise an ImportError to fix the issue.
             raise ImportError("Originally  " + repr(e))
+        finally:
+            if sys_path is not None:
+                sys.path = temp
 
     if loader is None:
         raise ImportError("Couldn't find a loader for {}".format(string))
